@@ -11,7 +11,7 @@ import (
 	"go.etcd.io/bbolt/verifh/gen"
 )
 
-const c06Rule = "generated histories of write transactions interleaved with readers of several ages, rollbacks, reopenings and commits that fail (an armed I/O fault on a write/sync/truncate call, or a size limit), both backends, freelist sync on/off. EVERY pwrite the library issues is intercepted before it happens: its page range must be disjoint from the pages (tree, overflow, freelist - computed by the independent decoder at commit time) of the newest committed version and of every open reader's version, and a meta write must go to the slot that does not hold the newest committed meta. In addition the bytes of all pages of every still-visible version are re-hashed from the file after every commit, failed commit and reader close (catches modifications that bypass the write hook). After a failed commit the newest version is re-determined from the file. Non-trivial = a write was observed while a reader older than the newest version was open and the writer had taken pages from the free list. Distinct = SHA-256 of the op log."
+const c06Rule = "generated histories of write transactions interleaved with readers of several ages, rollbacks, reopenings, sessions that start with a torn (interrupted) write in the older meta slot, and commits that fail (an armed I/O fault on a write/sync/truncate call, or a size limit), both backends, freelist sync on/off. EVERY pwrite the library issues is intercepted before it happens: its page range must be disjoint from the pages (tree, overflow, freelist - computed by the independent decoder at commit time) of the newest committed version and of every open reader's version, and a meta write must go to the slot that does not hold the newest committed meta. In addition the bytes of all pages of every still-visible version are re-hashed from the file after every commit, failed commit and reader close (catches modifications that bypass the write hook). After a failed commit the newest version is re-determined from the file. Non-trivial = a write was observed while a reader older than the newest version was open and the writer had taken pages from the free list. Distinct = SHA-256 of the op log."
 
 func c06Install(e *drv.Env) *verTracker {
 	vt := newVerTracker()
@@ -116,6 +116,7 @@ func c06Cfg(excluded *int) gen.Cfg {
 	cfg.ReaderBoost = 2
 	cfg.CommitWeight = 30
 	cfg.Faults = 4
+	cfg.TearMeta = 3 // an interrupted meta write of an unfinished transaction leaves a torn OLDER slot behind
 	return cfg
 }
 
